@@ -1,18 +1,21 @@
 #!/usr/bin/env python3
-"""tools/mkseed.py <seed-name> <file> <old-file> <new-file>: make /verif/seeded/<seed-name>/patch.diff by replacing the text
-in <old-file> with <new-file> inside /repo/<file> (repo left clean).  Several (file, old, new) triples may be given."""
-import subprocess, sys, os
+"""tools/mkseed.py <seed-name> <file> <old-file> <new-file> [...]: make /verif/seeded/<seed-name>/patch.diff by replacing
+the text in <old-file> with <new-file> inside <file> of a scratch worktree of /repo's HEAD (never touches /repo's working
+tree).  Several (file, old, new) triples may be given."""
+import subprocess, sys, os, shutil
 name = sys.argv[1]; triples = sys.argv[2:]
-assert subprocess.run(['git','-C','/repo','diff','--quiet']).returncode == 0, "repo dirty"
+W = "/tmp/mkseed_%d" % os.getpid()
+subprocess.check_call(['git', '-C', '/repo', 'worktree', 'add', '--detach', '-f', W, 'HEAD'], stdout=subprocess.DEVNULL, stderr=subprocess.DEVNULL)
 try:
   for i in range(0, len(triples), 3):
     f, o, n = triples[i:i+3]
-    p = os.path.join('/repo', f); s = open(p).read(); old = open(o).read(); new = open(n).read()
+    p = os.path.join(W, f); s = open(p).read(); old = open(o).read(); new = open(n).read()
     assert s.count(old) == 1, (f, s.count(old))
     open(p, 'w').write(s.replace(old, new))
-  d = subprocess.run(['git','-C','/repo','diff'], capture_output=True, text=True).stdout
+  d = subprocess.run(['git', '-C', W, 'diff'], capture_output=True, text=True).stdout
   os.makedirs('/verif/seeded/' + name, exist_ok=True)
   open('/verif/seeded/%s/patch.diff' % name, 'w').write(d)
   print(d)
 finally:
-  subprocess.check_call(['git','-C','/repo','checkout','--','.'])
+  subprocess.call(['git', '-C', '/repo', 'worktree', 'remove', '--force', W], stdout=subprocess.DEVNULL, stderr=subprocess.DEVNULL)
+  shutil.rmtree(W, ignore_errors=True)
